@@ -9,6 +9,10 @@ textual step maps *every layout* of *every token sequence* to a layout of the tr
 sequence; the points excluded by the hypotheses are exhibited by `decide` witnesses and run against the real
 code by the harness. Subject: `Model/Matcher.lean` (tied to the code by exhaustive small-scope and random
 differential execution, function by function and for the pipeline as a whole).
+
+Since the F01b repair the steps of this file are the *per-text* steps: the pipeline applies them to the texts outside
+string literals (`split_literals`). `Props/C02Lit.lean` lifts every layout theorem of this file to token sequences
+with string literals, with no hypothesis on what the literals contain.
 -/
 namespace Casbin.C02
 open Casbin.Matcher
@@ -324,7 +328,10 @@ theorem unrepaired_glues :
     getExpressionUnrepaired (render [(.word ['a'], []), (.orOp, []), (.notOp, []), (.word ['b'], [])]) = "aornot b".toList := by
   decide
 
-/-- outside `wfToks`: an operator character inside a string literal is rewritten (F01b) -/
+/-- outside `wfToks`: the per-text step rewrites an operator character wherever it stands. Before the F01b repair
+    this step ran over the whole matcher, string literals included (this witness); the repaired pipeline applies it
+    to the texts *outside* string literals only: `Props/C02Lit.lean`, `getExpressionL_layout` (no hypothesis on
+    literal bodies) and the positive witness `literal_not_rewritten`. -/
 theorem literal_rewritten :
     getExpression (render [(.other "\"a&&b\"".toList, [])]) = "\"a and b\"".toList ∧
     wfToks [(.other "\"a&&b\"".toList, [])] = false := by
@@ -355,7 +362,9 @@ theorem removeComments_prefix (x y : Str) (h : '#' ∉ x) :
 example : '#' ∉ "r_sub == p_sub  ".toList := by decide
 example : String.ofList (removeComments "r_sub == p_sub  # the matcher".toList) = "r_sub == p_sub" := by decide
 
-/-- outside the hypothesis: a `#` inside a string literal cuts the matcher (F01b) -/
+/-- the per-text step cuts at any `#`; before the F01b repair it ran over the whole matcher, so a `#` inside a string
+    literal cut it (this witness). Repaired: `removeCommentsL` looks for `#` outside string literals only
+    (`Props/C02Lit.lean`, `removeCommentsL_prefix`, `hash_in_literal_kept`). -/
 theorem hash_in_literal_cuts : removeComments "r_obj == \"a#b\"".toList = "r_obj == \"a".toList := by decide
 
 /-! ## result typing -/
@@ -628,8 +637,10 @@ example : okFor 'p' ['2'] false exampleEsc = true ∧ okFor 'r' ['2'] false (map
 example : String.ofList (escapeAssertion (render exampleEsc)) =
     "r2_sub == p2_sub && regexMatch(r2_act, \"read\")" := by decide
 
-/-- outside the hypotheses (F01b): reference-like text inside a string literal is renamed; and a matcher
-    mixing two suffixes of one kind has only the first suffix renamed -/
+/-- outside the hypotheses: the per-text step renames reference-like text wherever it stands — before the F01b repair
+    also inside a string literal (first conjunct; repaired: `escapeAssertionL_layout`, `literal_not_renamed` in
+    `Props/C02Lit.lean`); and a matcher mixing two suffixes of one kind has only the first suffix renamed (third
+    conjunct: still so, `singleSuffix` stays a hypothesis) -/
 theorem escape_outside_hypotheses :
     escapeAssertion "r.obj == \"p.txt\"".toList = "r_obj == \"p_txt\"".toList ∧
     okFor 'p' [] false [(.ref 'r' [] "obj".toList, [' ']), (.other "==".toList, [' ']), (.other "\"p.txt\"".toList, [])] = false ∧
